@@ -1,9 +1,37 @@
-// Package c01: crash recovery of the ledger store.
+// Package c01: crash recovery of the ledger store (property C01).
+//
+// Implementation side: solo chains of ONT/ONG transfer blocks are built with a snapshot of the data
+// directory at every height. For every block and every durably distinct crash point of submitBlock
+// (the step order is read from the source, see steps.go) the directory such a crash leaves is
+// assembled from the two neighbouring snapshots (each LevelDB store old or new; merkle_tree.db old,
+// new, or cut inside the append), reopened with the real ledger, observed, and fed the next blocks.
+//
+// Oracle (on the implementation only): the reopened ledger is at the old or the new height and its
+// observations (state merkle root, block root for a probe leaf, balances, events, merkle proofs
+// read from the hash file, whole state store, hash-file prefix) equal those of the uncrashed
+// ledger at that height; a block with a wrong block root is turned away like the uncrashed ledger
+// did; the next good block is accepted and leads to the uncrashed observations of the next height.
+//
+// Correspondence: the same scenario is handed to Model/Recovery.v as a Coq case (Corr/C01.v).
 package c01
 
 import (
+	"bytes"
+	"encoding/binary"
+	"encoding/json"
+	"fmt"
+	"os"
+	"path/filepath"
+	"strings"
+
+	"github.com/ontio/ontology/common"
+	scom "github.com/ontio/ontology/core/store/common"
+	"github.com/ontio/ontology/core/types"
+	"github.com/ontio/ontology/merkle"
+
 	"verif/harness/gen"
 	"verif/harness/hx"
+	"verif/harness/ledgerkit"
 )
 
 func init() {
@@ -11,6 +39,524 @@ func init() {
 	hx.Register("C01", Run)
 }
 
+var tornOffsets = []int{0, 1, 31, 32, 33, 63, 64, 65, 1 << 20}
+
 func Run(c *hx.Ctx) {
 	c.CoqModule("Corr.C01")
+	proto, err := ExtractProtocol(c.Repo)
+	if err != nil {
+		c.Note("protocol extraction: " + err.Error())
+		c.Fail("translator:recover", "the commit protocol of submitBlock/recoverStore could not be read from the source", ledgerStoreFile, err.Error(), nil)
+		return
+	}
+	var stepNames []string
+	for _, s := range proto.Submit {
+		stepNames = append(stepNames, s.String())
+	}
+	c.Note("submitBlock steps: " + strings.Join(stepNames, " "))
+	c.Note(fmt.Sprintf("recoverStore loop: for i := %s; %s; %s { GetBlockHash(%s) }", proto.InitGo, proto.CondGo, proto.PostGo, proto.ArgGo))
+
+	type job struct {
+		name string
+		spec chainSpec
+		only *crashSpec
+	}
+	var jobs []job
+	var in scenario
+	if c.ReplayInput(&in) {
+		jobs = append(jobs, job{"replay", in.Chain, &in.Crash})
+	} else {
+		for n, raw := range c.CorpusInputs() {
+			var s scenario
+			if json.Unmarshal(raw, &s) == nil && len(s.Chain.Blocks) > 0 {
+				cr := s.Crash
+				jobs = append(jobs, job{fmt.Sprintf("corpus%d", n), s.Chain, &cr})
+			}
+		}
+		chains := c.N(3, 40)
+		for i := 0; i < chains; i++ {
+			jobs = append(jobs, job{fmt.Sprintf("chain%d", i), genChain(c, i), nil})
+		}
+	}
+	// all chains are built before the first case is written: their blocks, write sets, initial
+	// directory and node-hash table are shared Coq definitions in the header of cases.v
+	var built []*builtChain
+	var cws []*coqChain
+	for _, j := range jobs {
+		bc, err := buildChain(c, j.name, j.spec)
+		if err != nil {
+			c.Note(j.name + ": chain not built: " + err.Error())
+			c.Fail("harness:chain", "the uncrashed solo chain could not be built", j.spec, err.Error(), nil)
+			built = append(built, nil)
+			cws = append(cws, nil)
+			continue
+		}
+		defer os.RemoveAll(bc.dir)
+		cw := newCoqChain(c, j.name, bc)
+		c.CoqHeader(cw.definitions(c))
+		built = append(built, bc)
+		cws = append(cws, cw)
+	}
+	for i, j := range jobs {
+		if built[i] != nil {
+			runSpec(c, proto, built[i], cws[i], j.only)
+		}
+	}
+}
+
+// genChain draws a chain of 2..5 blocks (the last is only used as "next block") of 0..4 transfers.
+func genChain(c *hx.Ctx, i int) chainSpec {
+	spec := chainSpec{Accounts: 2 + c.Intn(3)}
+	nb := 2 + c.Intn(c.N(3, 5))
+	if i == 0 {
+		nb = 4 // sizes 1..5 of the block tree: appends that store 1, 2, 1, 3 hashes
+	}
+	for b := 0; b < nb; b++ {
+		var txs []txSpec
+		nt := c.Intn(5)
+		if b == 0 && nt == 0 {
+			nt = 1
+		}
+		for t := 0; t < nt; t++ {
+			tx := txSpec{Token: "ont", From: 0, To: 1 + c.Intn(spec.Accounts-1), Amount: uint64(1 + c.Intn(1000))}
+			switch c.Intn(8) {
+			case 0:
+				tx.Token = "ong" // nobody holds ONG: the transfer fails inside an otherwise valid block
+			case 1:
+				tx.From = 1 + c.Intn(spec.Accounts-1) // may or may not hold enough
+				tx.To = c.Intn(spec.Accounts)
+			case 2:
+				tx.Amount = 2000000000 // more than the supply
+			}
+			txs = append(txs, tx)
+			c.Count("tx:" + tx.Token)
+		}
+		c.Count(fmt.Sprintf("block:txs=%d", len(txs)))
+		spec.Blocks = append(spec.Blocks, txs)
+	}
+	c.Count(fmt.Sprintf("chain:blocks=%d", nb))
+	return spec
+}
+
+// runSpec runs either the one given crash or all crash points of all blocks of a built chain.
+func runSpec(c *hx.Ctx, proto *Protocol, bc *builtChain, cw *coqChain, only *crashSpec) {
+	spec := bc.spec
+	// the uncrashed run itself: rejected competitor at every height, clean restart at every height
+	for h := 1; h <= bc.top(); h++ {
+		if bc.badErr[h] != "OErrBlockRoot" {
+			c.Fail("uncrashed:bad-block", "a block with a wrong block root was not turned away with a block-root error",
+				scenario{Chain: spec, Crash: crashSpec{Block: h, After: "start", Torn: -1}}, bc.badErr[h], "OErrBlockRoot")
+		}
+	}
+	if only != nil {
+		p, err := resolve(proto.Submit, *only)
+		if err != nil {
+			c.Fail("protocol:crash-point", "the recorded crash point does not exist in the current submitBlock", scenario{spec, *only}, err.Error(), nil)
+			return
+		}
+		runCrash(c, bc, cw, only.Block, p)
+		return
+	}
+	pts, err := crashPoints(proto.Submit, tornOffsets)
+	if err != nil {
+		c.Fail("protocol:unsupported-step-order", "submitBlock's step order cannot be reproduced by mixing snapshots of the stores",
+			scenario{Chain: spec}, err.Error(), "NewBatch, Save*, then one CommitTo per store")
+		return
+	}
+	for h := 1; h < bc.top(); h++ {
+		appendLen := len(bc.dumps[h].File) - len(bc.dumps[h-1].File)
+		seenTorn := map[int]bool{}
+		for _, p := range pts {
+			if p.Torn >= 0 {
+				j := p.Torn
+				if j > appendLen {
+					j = appendLen
+				}
+				if seenTorn[j] {
+					continue
+				}
+				seenTorn[j] = true
+				p.Torn = j
+			}
+			runCrash(c, bc, cw, h, p)
+		}
+	}
+}
+
+// runCrash: crash at p while block h is committed on top of height h-1.
+func runCrash(c *hx.Ctx, bc *builtChain, cw *coqChain, h int, p crashPoint) {
+	if h < 1 || h >= bc.top() {
+		c.Note(fmt.Sprintf("crash block %d outside the chain (1..%d)", h, bc.top()-1))
+		return
+	}
+	in := scenario{Chain: bc.spec, Crash: crashSpec{Block: h, After: p.After, Torn: p.Torn}}
+	c.Eval()
+	c.Count("crash:after=" + p.After + map[bool]string{true: "+torn", false: ""}[p.Torn >= 0])
+	c.Count(fmt.Sprintf("crash:block=%d", h))
+	c.Nontrivial(fmt.Sprintf("%s/%d/%s/%d/%d", filepath.Base(bc.dir), h, p.After, p.Torn, len(bc.blocks[h].Transactions)))
+	dir := filepath.Join(bc.dir, "crash")
+	if err := assemble(bc, h, p, dir); err != nil {
+		c.Fail("harness:assemble", "crashed directory could not be assembled", in, err.Error(), nil)
+		return
+	}
+	defer os.RemoveAll(dir)
+	crashed, err := dumpDir(dir)
+	if err != nil {
+		c.Fail("harness:dump", "crashed directory unreadable", in, err.Error(), nil)
+		return
+	}
+	var reopened *obs
+	var after []afterStep
+	var k *ledgerkit.Kit
+	panicked, msg := hx.Recover(func() { k, err = bc.kit.OpenAt(dir) })
+	if panicked {
+		err = fmt.Errorf("panic: %s", msg)
+	}
+	if err != nil {
+		c.Fail("recover:reopen-fails", "reopening the data directory left by the crash fails", in, err.Error(), "ledger at height "+fmt.Sprint(h-1)+" or "+fmt.Sprint(h))
+		cw.emit(c, in, h, p, crashed, nil, nil, nil)
+		return
+	}
+	o := observe(k, bc.accts)
+	reopened = &o
+	cur := int(o.Height)
+	switch {
+	case cur != h-1 && cur != h:
+		c.Fail("recover:height", "the reopened ledger is neither at the old nor at the new height", in, o, fmt.Sprintf("height %d or %d", h-1, h))
+	default:
+		if d := o.diff(bc.obs[cur]); d != "" {
+			c.Fail("recover:state-differs", "the reopened ledger differs from the uncrashed ledger at the same height: "+d, in, o, bc.obs[cur])
+		}
+	}
+	c.Count(fmt.Sprintf("reopened:%s", map[bool]string{true: "new-height", false: "old-height"}[cur == h]))
+	if cur == h-1 || cur == h {
+		// the following blocks: a competitor with a wrong block root, then the real next block
+		next := cur + 1
+		got := addBlock(k, bc.bad[next], bc.sroots[next])
+		ob := observe(k, bc.accts)
+		after = append(after, afterStep{bc.bad[next], bc.sroots[next], got, ob})
+		if got != bc.badErr[next] {
+			c.Fail("recover:next-block-answer", "a following block is answered differently from the uncrashed ledger", in, got, bc.badErr[next])
+		} else if d := ob.diff(bc.obs[cur]); d != "" {
+			c.Fail("recover:rejected-block-changed-state", "a rejected block changed the reopened ledger: "+d, in, ob, bc.obs[cur])
+		}
+		got = addBlock(k, bc.blocks[next], bc.sroots[next])
+		ob = observe(k, bc.accts)
+		after = append(after, afterStep{bc.blocks[next], bc.sroots[next], got, ob})
+		if got != "OAccepted" {
+			c.Fail("recover:next-block-answer", "the next block, accepted by the uncrashed ledger, is not accepted after recovery", in, got, "OAccepted")
+		} else if d := ob.diff(bc.obs[next]); d != "" {
+			c.Fail("recover:next-block-state", "after the next block the recovered ledger differs from the uncrashed one: "+d, in, ob, bc.obs[next])
+		}
+	}
+	k.Close()
+	final, err := dumpDir(dir)
+	if err != nil {
+		c.Fail("harness:dump", "directory unreadable after the run", in, err.Error(), nil)
+		return
+	}
+	if len(after) == 2 && after[1].Got == "OAccepted" {
+		ref := bc.dumps[cur+1]
+		if d := stateEqual(final.State, ref.State); d != "" {
+			c.Fail("recover:state-store-differs", "after the next block the state store differs from the uncrashed one: "+d, in, nil, nil)
+		}
+		n := len(ref.File)
+		if len(final.File) < n || !bytes.Equal(final.File[:n], ref.File) {
+			c.Fail("recover:hash-file-differs", "after the next block merkle_tree.db differs from the uncrashed file within the committed size", in,
+				fmt.Sprintf("len %d", len(final.File)), fmt.Sprintf("len %d", n))
+		}
+		if final.BlockCur != ref.BlockCur || final.StateCur != ref.StateCur || final.EventCur != ref.EventCur {
+			c.Fail("recover:store-heights", "store heights after the next block differ from the uncrashed ones", in,
+				[]int64{final.BlockCur, final.EventCur, final.StateCur}, []int64{ref.BlockCur, ref.EventCur, ref.StateCur})
+		}
+	}
+	c.Sample(map[string]interface{}{"crash": in.Crash, "txs_in_block": len(bc.blocks[h].Transactions), "reopened_height": o.Height,
+		"state_root": o.StateRoot, "next_answers": []string{after[0].Got, after[1].Got}})
+	cw.emit(c, in, h, p, crashed, reopened, after, final)
+}
+
+type afterStep struct {
+	B     *types.Block
+	SRoot common.Uint256
+	Got   string
+	Obs   obs
+}
+
+// ---------- Coq side ----------
+
+type coqChain struct {
+	name   string
+	bc     *builtChain
+	hct    map[string]bool
+	hcList []string
+}
+
+func cq(h common.Uint256) string { return cb(h[:]) }
+
+// cb prints a byte string as (hb "hex") (decoded by Corr.C01.hb; far cheaper to parse than a list of numerals).
+func cb(b []byte) string {
+	if len(b) == 0 {
+		return "[]"
+	}
+	return "(hb \"" + hx.Hex(b) + "\"%string)"
+}
+
+// recTree mirrors which node hashes the compact merkle tree asks for; the values come from the
+// real merkle.HashChildren.
+type recTree struct {
+	cw     *coqChain
+	size   uint32
+	hashes []common.Uint256
+}
+
+func (cw *coqChain) hc(a, b common.Uint256) common.Uint256 {
+	r := merkle.HashChildren(a, b)
+	key := string(a[:]) + string(b[:])
+	if !cw.hct[key] {
+		cw.hct[key] = true
+		cw.hcList = append(cw.hcList, fmt.Sprintf("(%s, %s, %s)", cq(a), cq(b), cq(r)))
+	}
+	return r
+}
+
+func (t *recTree) clone() *recTree {
+	return &recTree{cw: t.cw, size: t.size, hashes: append([]common.Uint256{}, t.hashes...)}
+}
+
+func (t *recTree) append(leaf common.Uint256) {
+	n := len(t.hashes)
+	for s := t.size; s%2 == 1; s >>= 1 {
+		leaf = t.cw.hc(t.hashes[n-1], leaf)
+		n--
+	}
+	t.size++
+	t.hashes = append(t.hashes[:n], leaf)
+}
+
+func (t *recTree) fold(hs []common.Uint256) {
+	if len(hs) == 0 {
+		return
+	}
+	acc := hs[len(hs)-1]
+	for i := len(hs) - 2; i >= 0; i-- {
+		acc = t.cw.hc(hs[i], acc)
+	}
+}
+
+func newCoqChain(c *hx.Ctx, name string, bc *builtChain) *coqChain {
+	cw := &coqChain{name: name, bc: bc, hct: map[string]bool{}}
+	bt := &recTree{cw: cw}
+	st := &recTree{cw: cw}
+	for h := 0; h <= bc.top(); h++ {
+		// what a ledger at height h-1 computes about block h, and what observers ask at height h
+		txroot := bc.blocks[h].Header.TransactionsRoot
+		var xh common.Uint256
+		if h == 0 {
+			xh = stateHashAt(bc.dumps[0], 0)
+		} else {
+			xh = bc.execs[h].Hash
+		}
+		st.fold(append(append([]common.Uint256{}, st.hashes...), xh))
+		bt.append(txroot)
+		bt.fold(bt.hashes)
+		st.append(xh)
+		st.fold(st.hashes)
+		p := bt.clone()
+		p.append(probeRoot)
+		p.fold(p.hashes)
+	}
+	return cw
+}
+
+// stateHashAt reads the write-set hash recorded for a height from a state dump.
+func stateHashAt(d *dirDump, h uint32) (r common.Uint256) {
+	key := make([]byte, 5)
+	key[0] = byte(scom.DATA_STATE_MERKLE_ROOT)
+	binary.LittleEndian.PutUint32(key[1:], h)
+	for _, p := range d.State {
+		if bytes.Equal(p.K, key) && len(p.V) >= 32 {
+			copy(r[:], p.V[:32])
+		}
+	}
+	return
+}
+
+func hashesOf(b []byte) []string {
+	var out []string
+	for i := 0; i+32 <= len(b); i += 32 {
+		out = append(out, cb(b[i:i+32]))
+	}
+	return out
+}
+
+var bookkeeperKey = append([]byte{byte(scom.ST_BOOKKEEPER)}, []byte("Bookkeeper")...)
+
+// typedKV decodes one raw state-store pair into the model's typed key and value.
+func typedKV(k, v []byte) (string, string) {
+	switch {
+	case len(k) == 1 && k[0] == byte(scom.SYS_CURRENT_BLOCK) && len(v) == 36:
+		return "SKCur", fmt.Sprintf("SVCur %s %d", cb(v[:32]), binary.LittleEndian.Uint32(v[32:]))
+	case len(k) == 1 && k[0] == byte(scom.SYS_BLOCK_MERKLE_TREE) && len(v) >= 4 && (len(v)-4)%32 == 0:
+		return "SKBlockTree", fmt.Sprintf("SVTree %d %s", binary.LittleEndian.Uint32(v[:4]), hx.CoqList(hashesOf(v[4:])))
+	case len(k) == 1 && k[0] == byte(scom.SYS_STATE_MERKLE_TREE) && len(v) >= 4 && (len(v)-4)%32 == 0:
+		return "SKStateTree", fmt.Sprintf("SVTree %d %s", binary.LittleEndian.Uint32(v[:4]), hx.CoqList(hashesOf(v[4:])))
+	case len(k) == 5 && k[0] == byte(scom.DATA_STATE_MERKLE_ROOT) && len(v) == 64:
+		return fmt.Sprintf("SKStateRoot %d", binary.LittleEndian.Uint32(k[1:])), fmt.Sprintf("SVRoot %s %s", cb(v[:32]), cb(v[32:]))
+	case len(k) == 5 && k[0] == byte(scom.SYS_CURRENT_CROSS_STATES) && len(v)%32 == 0:
+		return fmt.Sprintf("SKCross %d", binary.LittleEndian.Uint32(k[1:])), fmt.Sprintf("SVHashes %s", hx.CoqList(hashesOf(v)))
+	case bytes.Equal(k, bookkeeperKey):
+		return "SKBookkeeper", "SVRaw " + cb(v)
+	}
+	return "SKRaw " + cb(k), "SVRaw " + cb(v)
+}
+
+func isSysKey(k []byte) bool {
+	if len(k) == 0 {
+		return true
+	}
+	switch k[0] {
+	case byte(scom.SYS_CURRENT_BLOCK), byte(scom.SYS_BLOCK_MERKLE_TREE), byte(scom.SYS_STATE_MERKLE_TREE),
+		byte(scom.DATA_STATE_MERKLE_ROOT), byte(scom.SYS_CURRENT_CROSS_STATES):
+		return true
+	}
+	return bytes.Equal(k, bookkeeperKey)
+}
+
+func (cw *coqChain) blk(b *types.Block, sroot common.Uint256) string {
+	var txs []string
+	for _, t := range b.Transactions {
+		txs = append(txs, cq(t.Hash()))
+	}
+	return fmt.Sprintf("(mkBlk %d %s %s %s %s %s %s)", b.Header.Height, cq(b.Hash()), cq(b.Header.PrevBlockHash),
+		cq(b.Header.TransactionsRoot), cq(b.Header.BlockRoot), hx.CoqList(txs), cq(sroot))
+}
+
+func (cw *coqChain) xres(c *hx.Ctx, h int) string {
+	r := cw.bc.execs[h]
+	var ws []string
+	r.WriteSet.ForEach(func(k, v []byte) {
+		if isSysKey(k) {
+			c.Fail("assumption:write-set-key", "a block's write set contains a key of the state store's system records", hx.Hex(k), nil, nil)
+		}
+		ws = append(ws, fmt.Sprintf("(%s, %s)", cb(k), cb(v)))
+	})
+	var cross, notify []string
+	for _, x := range r.CrossStates {
+		cross = append(cross, cq(x))
+	}
+	for _, n := range r.Notify {
+		notify = append(notify, fmt.Sprintf("(%s, [])", cq(n.TxHash)))
+	}
+	return fmt.Sprintf("(mkXres %s %s %s %s)", hx.CoqList(ws), cq(r.Hash), hx.CoqList(cross), hx.CoqList(notify))
+}
+
+func (cw *coqChain) disk0() string {
+	d := cw.bc.dumps[0]
+	g := cw.bc.blocks[0]
+	var st []string
+	for _, p := range d.State {
+		k, v := typedKV(p.K, p.V)
+		st = append(st, fmt.Sprintf("(%s, %s)", k, v))
+	}
+	bs := []string{fmt.Sprintf("(BKVersion, BVVersion %d)", d.Version)}
+	if d.BlockCur >= 0 {
+		bs = append(bs, fmt.Sprintf("(BKCur, BVCur %s %d)", cb(hx.UnHex(d.HashIndex[d.BlockCur])), d.BlockCur))
+		bs = append(bs, fmt.Sprintf("(BKHash 0, BVHash %s)", cb(hx.UnHex(d.HashIndex[0]))))
+		bs = append(bs, fmt.Sprintf("(BKBlock %s, BVBlock %s)", cq(g.Hash()), cw.blk(g, common.Uint256{})))
+	}
+	var es []string
+	if d.EventCur >= 0 {
+		es = append(es, fmt.Sprintf("(EKCur, EVCur %s %d)", cq(g.Hash()), d.EventCur))
+	}
+	return fmt.Sprintf("(mkDisk %s %s %s %s)", hx.CoqList(bs), hx.CoqList(es), hx.CoqList(st), cb(d.File))
+}
+
+func (cw *coqChain) dobs(d *dirDump) string {
+	base := map[string][]byte{}
+	for _, p := range cw.bc.dumps[0].State {
+		base[string(p.K)] = p.V
+	}
+	var diff []string
+	seen := map[string]bool{}
+	for _, p := range d.State {
+		seen[string(p.K)] = true
+		if v, ok := base[string(p.K)]; !ok || !bytes.Equal(v, p.V) {
+			k, tv := typedKV(p.K, p.V)
+			diff = append(diff, fmt.Sprintf("(%s, Some (%s))", k, tv))
+		}
+	}
+	for _, p := range cw.bc.dumps[0].State {
+		if !seen[string(p.K)] {
+			k, _ := typedKV(p.K, p.V)
+			diff = append(diff, fmt.Sprintf("(%s, None)", k))
+		}
+	}
+	return fmt.Sprintf("(mkDobs %s %s %s %s %s %s)", hx.CoqZ(d.BlockCur), hx.CoqZ(d.StateCur), hx.CoqZ(d.EventCur),
+		cb(d.File), hx.CoqList(diff), hx.CoqNat(len(d.State)))
+}
+
+func coqHexHash(s string) string {
+	u, err := common.Uint256FromHexString(s)
+	if err != nil {
+		return "None"
+	}
+	return "(Some " + cq(u) + ")"
+}
+
+func lobs(o obs) string {
+	hash, _ := common.Uint256FromHexString(o.Hash)
+	return fmt.Sprintf("(mkLobs %d %s %s %s)", o.Height, cq(hash), coqHexHash(o.StateRoot), coqHexHash(o.BlockRoot))
+}
+
+// definitions renders the chain's shared Coq definitions (header of cases.v).
+func (cw *coqChain) definitions(c *hx.Ctx) string {
+	bc := cw.bc
+	var b strings.Builder
+	n := cw.name
+	fmt.Fprintf(&b, "Definition %s_hct : list (bytes * bytes * bytes) := %s.\n", n, hx.CoqList(cw.hcList))
+	fmt.Fprintf(&b, "Definition %s_d0 : disk := %s.\n", n, cw.disk0())
+	var xtab []string
+	for i := 1; i <= bc.top(); i++ {
+		fmt.Fprintf(&b, "Definition %s_b%d : blk := %s.\n", n, i, cw.blk(bc.blocks[i], bc.sroots[i]))
+		fmt.Fprintf(&b, "Definition %s_bad%d : blk := %s.\n", n, i, cw.blk(bc.bad[i], bc.sroots[i]))
+		fmt.Fprintf(&b, "Definition %s_x%d : xres := %s.\n", n, i, cw.xres(c, i))
+		// the competitor block carries the same transactions: the implementation computes the same result for it
+		xtab = append(xtab, fmt.Sprintf("(b_hash %s_b%d, %s_x%d)", n, i, n, i), fmt.Sprintf("(b_hash %s_bad%d, %s_x%d)", n, i, n, i))
+	}
+	fmt.Fprintf(&b, "Definition %s_xtab : list (bytes * xres) := %s.\n", n, hx.CoqList(xtab))
+	return b.String()
+}
+
+func (cw *coqChain) emit(c *hx.Ctx, in scenario, h int, p crashPoint, crashed *dirDump, reopened *obs, after []afterStep, final *dirDump) {
+	bc := cw.bc
+	n := cw.name
+	var prefix []string
+	for i := 1; i < h; i++ {
+		prefix = append(prefix, fmt.Sprintf("%s_b%d", n, i))
+	}
+	j := p.Torn
+	if j < 0 {
+		j = 0
+	}
+	ro := "None"
+	fin := cw.dobs(crashed)
+	var aft []string
+	if reopened != nil {
+		ro = "(Some " + lobs(*reopened) + ")"
+		for _, a := range after {
+			name := fmt.Sprintf("%s_b%d", n, a.B.Header.Height)
+			if a.B == bc.bad[a.B.Header.Height] {
+				name = fmt.Sprintf("%s_bad%d", n, a.B.Header.Height)
+			}
+			aft = append(aft, fmt.Sprintf("(%s, %s, %s)", name, a.Got, lobs(a.Obs)))
+		}
+		if final != nil {
+			fin = cw.dobs(final)
+		}
+	}
+	empty := merkle.TreeHasher{}.HashFullTreeWithLeafHash(nil)
+	term := fmt.Sprintf("CScen %s_hct %s %d %s %s_d0 %s_xtab %s %s %s_b%d %s %s %s %s %s %s",
+		n, cq(empty), ledgerkit.StateHashHeight, cq(probeRoot), n, n, hx.CoqList(prefix), lobs(bc.obs[h-1]),
+		n, h, hx.CoqNat(p.C), hx.CoqNat(j), cw.dobs(crashed), ro, hx.CoqList(aft), fin)
+	c.Case(term, in)
 }
